@@ -79,4 +79,46 @@ func H16CSV() {
 			}
 		}
 	}
+	// every warning names the cell it is about: "<column letters><line>: message" points at a
+	// non-empty field of a data row (centre under a unit header, or a delta under "vs base")
+	parts := strings.SplitN(csvText, "\n--warnings--\n", 2)
+	lines := strings.Split(parts[0], "\n")
+	if len(parts) == 2 {
+		for _, wl := range strings.Split(parts[1], "\n") {
+			if wl == "" {
+				continue
+			}
+			colon := strings.Index(wl, ":")
+			if colon < 2 {
+				vndAssert(false, "warning-has-a-cell-reference")
+				continue
+			}
+			ref := wl[:colon]
+			k := 0
+			col := 0
+			for k < len(ref) && ref[k] >= 'A' && ref[k] <= 'Z' {
+				col = col*26 + int(ref[k]-'A')
+				k++
+			}
+			ln := 0
+			for _, c := range []byte(ref[k:]) {
+				ln = ln*10 + int(c-'0')
+			}
+			vndAssert(k >= 1 && k < len(ref) && ln >= 1 && ln <= len(lines), "warning-has-a-cell-reference")
+			if k < 1 || ln < 1 || ln > len(lines) {
+				continue
+			}
+			f := h16Fields(lines[ln-1])
+			if f[0] == "geomean" {
+				continue // a column without a summary has an empty field there
+			}
+			vndReach("h16:csv-warning")
+			vndAssert(col < len(f) && f[col] != "", "warning-refers-to-the-cell-it-is-about")
+			if col < len(f) && strings.Contains(wl, "for confidence interval") {
+				// a sample-size warning is about a centre: the field is that measurement's number
+				isNum := f[col] != "" && (f[col][0] >= '0' && f[col][0] <= '9')
+				vndAssert(isNum, "warning-refers-to-the-cell-it-is-about")
+			}
+		}
+	}
 }
